@@ -76,11 +76,14 @@ Inductive arg := AI (i : iface) | ADirectlyProvidedBy (t : target) | AProvidedBy
    class is created with a custom metaclass (fixed during the history, possibly derived from other
    metaclasses) whose specification implementedBy(metaclass) names the interfaces l directly;
    [builtin = true]: the class is a built-in (immutable) type such as ``int``: its specification lives in
-   BuiltinImplementationSpecifications, neither it nor its instances can take ``__provides__``; [NewInstance c] creates instance number (#instances so far).
+   BuiltinImplementationSpecifications, neither it nor its instances can take ``__provides__``;
+   [old = Some l]: the class body has an old-style ``__implemented__ = <interfaces>`` attribute (a single
+   interface, a tuple, nested: l is what _normalizeargs makes of it): the first implementedBy(cls) turns it
+   into a specification with declared = l and inherit = None (nothing is inherited from the bases); [NewInstance c] creates instance number (#instances so far).
    The nine declaration calls; decorators are applied as calls ([Implementer c l] is
    implementer applied to l and then to class c, [Provider t l] likewise). *)
 Inductive op :=
-| NewClass (bases : list cls) (meta : option (list iface)) (builtin : bool)
+| NewClass (bases : list cls) (meta : option (list iface)) (builtin : bool) (old : option (list iface))
 | NewInstance (c : cls)
 | DropInstance (o : obj)
 | Implementer (c : cls) (l : list arg)
